@@ -7,26 +7,11 @@ From VerifGen Require Import Gen.
 From VerifProofs Require Import MsgAddrProofs.
 Open Scope N_scope.
 
-Definition starts_crlf (t : bytes) : bool :=
-  match t with c :: d :: _ => (c =? 13) && (d =? 10) | _ => false end.
-
+(* one-step unfolding of drop_sp_before_crlf (HeaderFold.starts_crlf: the next two bytes are CR LF) *)
 Lemma drop_cons : forall b t,
   drop_sp_before_crlf (b :: t) =
     if (b =? 32) && starts_crlf t then drop_sp_before_crlf t else b :: drop_sp_before_crlf t.
-Proof.
-  intros b t.
-  destruct (N.eqb_spec b 32) as [->|Hb].
-  - destruct t as [|c [|d t']]; try reflexivity.
-    + simpl. destruct c as [|p]; try reflexivity. repeat (destruct p as [p|p|]; try reflexivity).
-    + unfold starts_crlf.
-      destruct (N.eqb_spec c 13) as [->|Hc].
-      * destruct (N.eqb_spec d 10) as [->|Hd]; [reflexivity|].
-        simpl andb. cbv beta iota.
-        destruct d as [|p]; [reflexivity|]. repeat (destruct p as [p|p|]; try reflexivity). congruence.
-      * simpl andb. destruct c as [|p]; [reflexivity|]. repeat (destruct p as [p|p|]; try reflexivity). congruence.
-  - simpl andb. cbv iota.
-    destruct b as [|p]; [reflexivity|]. repeat (destruct p as [p|p|]; try reflexivity). congruence.
-Qed.
+Proof. reflexivity. Qed.
 
 Lemma drop_cons_ne : forall b t, b <> 32 ->
   drop_sp_before_crlf (b :: t) = b :: drop_sp_before_crlf t.
